@@ -1,5 +1,6 @@
 import Dashu.Driver.Loop
 import Dashu.Model.Trans.Guards
+import Dashu.Model.Trans.Powi
 /-
   Driver of group `trans` (C11).
 
@@ -219,7 +220,26 @@ def unary (fn : Fn) (a : FArg) (p : Nat) (claim : Option (List String)) : Option
       let c ← claim
       certUnary fn a p (parseClaim c)
 
+def toFloatMode : RMode → Dashu.Model.Float.Mode
+  | .zero => .zero | .away => .away | .up => .up | .down => .down
+  | .halfEven => .halfEven | .halfAway => .halfAway
+
+/-- tie of the mirrored powering loop (`Model/Trans/Powi.lean`, subject of `Props/C11Powi.lean`) to the code:
+    for a non-negative exponent `n ≥ 2` at a limited precision the loop model must print the very digits the
+    implementation printed (a mismatch is a defect of OUR mirror: `!model-mirror-mismatch`) -/
+def powiMirror (a : FArg) (k : Int) (p : Nat) (claim : Option (List String)) (s : String) : String :=
+  if k < 2 ∨ p = 0 ∨ a.x.inf ∨ k.natAbs.log2 > 200 then s
+  else
+    match claim.map parseClaim with
+    | some (.value sig e _ _ _) =>
+      let r := (powiNonneg false a.base (toFloatMode a.mode) Dashu.Model.Float.coarseNone p
+                  ⟨a.x.sig, a.x.exp⟩ (lowBits k.toNat)).2.1
+      if r.signif = sig ∧ r.exp = e then s
+      else s ++ " !model-mirror-mismatch powi-loop model=" ++ intToHex r.signif ++ "," ++ toString r.exp
+    | _ => s
+
 def powi (a : FArg) (k : Int) (p : Nat) (claim : Option (List String)) : Option String :=
+  (fun r => r.map (powiMirror a k p claim)) <|
   entryStr (powiEntry a.x k p) a p fun _ =>
     if a.x.sig = 0 ∧ k < 0 then some (Dashu.Driver.panic "DivideByZero")
     else do
